@@ -79,6 +79,8 @@ def one_case(v, pair, tftpc, c, idx, serial=False):
     srv, sb, cli = pair.srv, pair.sb, pair.cli
     content = N.keyed_content(f"c14-{idx}", c["size"])
     base = f"f{idx}.bin"
+    if idx % 5 == 3:
+        base = f"f {idx} sp\u00e4ce \u6587.bin"   # legal but unusual: space and non-ASCII letters
     common = ["-i", c["ip"], "-p", str(srv.port), "-b", str(c["b"]), "-w", str(c["w"]), "-t", str(c["t"])]
     drops0 = N.udp_counters()
     replay = {"engine": "net", "case": c, "server_args": srv.args}
